@@ -406,6 +406,9 @@ func doRun(rel, fn string, workers int, trace bool, assign string, maxpaths int)
 		fatal(fmt.Errorf("no function %s in %s", fn, rel))
 	}
 	opt := interp.Options{Workers: workers, TraceSolver: trace, MaxPaths: maxpaths}
+	if v := os.Getenv("SYMGO_MAXVIOL"); v != "" {
+		opt.MaxViol, _ = strconv.Atoi(v)
+	}
 	if assign != "" {
 		b, err := os.ReadFile(assign)
 		if err != nil {
@@ -448,6 +451,7 @@ func printResult(res *interp.Result) {
 	}
 	printMap("UNSUPPORTED", res.Unsupported)
 	printMap("BUDGET", res.Budget)
+	printMap("HANG-CANDIDATES", res.Hangs)
 	printMap("INCONCLUSIVE", res.Inconclusive)
 	for _, v := range res.Violations {
 		fmt.Printf("  CANDIDATE %s [%s] known=%q tierB=%s path=%s\n     values=%v chooses=%v\n", v.Label, v.Kind, v.Known, v.TierB, v.Decisions, v.Assign.Values, v.Assign.Chooses)
@@ -535,6 +539,7 @@ func doCheck(id, tier string) int {
 		}
 	}
 	confirmed := 0
+	var hangNotReproduced []string
 	spurious := 0
 	replays := 0
 	knownSeen := map[string]bool{}
@@ -549,7 +554,7 @@ func doCheck(id, tier string) int {
 		remaining := fs
 		outcomes := map[string]string{}
 		for len(remaining) > 0 {
-			got, txt := nativeReplay(rel, ovJSON, remaining, false, 120*time.Second)
+			got, txt := nativeReplay(rel, ovJSON, remaining, false, 45*time.Second)
 			if os.Getenv("SYMGO_VERBOSE") != "" {
 				fmt.Fprintf(os.Stderr, "native replay output:\n%s\n", txt)
 			}
@@ -583,6 +588,10 @@ func doCheck(id, tier string) int {
 				reproduced = o == "timeout" || strings.HasPrefix(o, "panic: stack overflow")
 			case "shared-write":
 				reproduced = true // footprint violations have no native observable; reported from the engine
+			}
+			if !reproduced && c.v.Kind == "hang" {
+				hangNotReproduced = append(hangNotReproduced, fmt.Sprintf("%s: step budget exceeded on a path that terminates natively (outcome %q): bound too small for this input; file %s", c.h.Func, o, c.file))
+				continue
 			}
 			if !reproduced {
 				spurious++
@@ -623,6 +632,7 @@ func doCheck(id, tier string) int {
 			}
 		}
 	}
+	inconclusive = append(inconclusive, hangNotReproduced...)
 	if spurious > 0 {
 		inconclusive = append(inconclusive, fmt.Sprintf("%d candidate counterexample(s) did not reproduce natively (engine imprecision)", spurious))
 	}
